@@ -20,6 +20,7 @@ type dbGen struct {
 	noStore bool
 	noNot   bool
 	noShift bool
+	noInt   bool // no int-field predicates in expressions
 }
 
 type dbGenField struct {
@@ -292,6 +293,9 @@ func (g *dbGen) leaf() *expr {
 		f := &g.fields[r.Intn(len(g.fields))]
 		switch f.typ {
 		case "int":
+			if g.noInt {
+				continue
+			}
 			op := simrt.Pick(r, "==", "!=", "<", "<=", ">", ">=", "><", "notnull")
 			v := g.intVal(f)
 			if r.Bool(0.3) {
